@@ -13,7 +13,7 @@ pair and every number of searches (`dones.length`), some of whose contexts may b
 `strict = false` places no restriction on the client; `strict = true` is the client protocol "no `Yield` after
 `Release`" (needed only for the no-leak clause, see `yield_after_release_holds_a_slot`).
 -/
-import ZoektModel.C20.Lemmas
+import ZoektModel.C20.RunSpec
 namespace ZoektModel.C20
 
 /-- **C20, bounded occupancy**: in every reachable state at most `capI` searches are counted in the interactive
@@ -216,6 +216,25 @@ theorem director_err_only_done (d : DState) (op : Op) (hp : d.st.panicked = fals
           intro w hw he
           rw [notify_woke_ok _ _ w hw] at he; cases he
         · simp
+
+/-- **the executable statement holds of the model** (`Spec.checkRun` is what the check evaluates on the real
+    scheduler's observations): for every capacity, batch divisor, set of initially-done contexts and every operation
+    script, run on the director model it finds no over-capacity, no counter that disagrees with the owner ledger, no
+    spurious failure and no leak at quiescence; its only possible complaint is `bad-event`, for scripts that no client
+    can issue (e.g. `Release` on a search that never acquired). Proof: simulation between the ledger and the model
+    (`Sim`: per search the ledger entry describes its location / slot / flags; each queue lists exactly the waiting
+    searches), preserved by every operation including `notifyWaiters` (C20/RunSpec.lean). -/
+theorem C20_checkRun (capacity batchdiv : Nat) (dones : List Bool) (ops : List Op) :
+    checkRun capacity (batchCap capacity batchdiv) dones ops (dRun (dInit capacity batchdiv dones) ops).2 = none ∨
+    checkRun capacity (batchCap capacity batchdiv) dones ops (dRun (dInit capacity batchdiv dones) ops).2 = some "bad-event" :=
+  checkRun_model capacity batchdiv dones ops
+
+/-- non-vacuity of `C20_checkRun`: a script with blocking, cancellation while queued, a move to batch that wakes a
+    waiter, a failed move to batch and repeated `Release` is accepted (`none`, not `bad-event`) -/
+example :
+    let ops : List Op := [.acq 0, .acq 1, .acq 2, .cancel 2, .acq 3, .expire 0, .yield 0, .expire 1, .cancel 1, .yield 1,
+      .rel 0, .rel 1, .rel 1, .rel 3]
+    checkRun 2 1 [false, false, false, false] ops (dRun (dInit 2 4 [false, false, false, false]) ops).2 = none := by decide
 
 /-- a concurrent log accepted by `replay` is a path of the small-step model (so an accepted log certifies bounded
     occupancy of the logged holding intervals) -/
